@@ -543,7 +543,9 @@ impl State {
                 StdioCfg::Null => child_fds[i] = Fd::Null,
                 StdioCfg::Inherit => child_fds[i] = pstdio[i],
                 StdioCfg::Piped => {
-                    let id = self.new_pipe(cap);
+                    // the stderr pipe keeps a realistic capacity: diagnostics are small, and a
+                    // parent that reads stderr only after feeding stdin is not wedged by them
+                    let id = self.new_pipe(if i == 2 { cap.max(65536) } else { cap });
                     // child end
                     child_fds[i] = Fd::Pipe { id, write: i != 0 };
                     // parent end
